@@ -20,11 +20,16 @@ type WriterSpec struct {
 	Page     int    `json:"page"`
 	Codec    string `json:"codec"`
 	Ops      []Op   `json:"ops"`
+	// ReadAs, when set, names the shape whose generated reader reads the file back
+	// (reader-side properties only): a struct with the same columns declared in
+	// another order. Empty = the shape that wrote it.
+	ReadAs string `json:"read_as,omitempty"`
 	Large    bool   `json:"-"` // drawn from the large class (informative, not part of the case)
 	Many     bool   `json:"-"` // drawn from the many-row-groups class
 	Huge     bool   `json:"-"` // drawn from the huge-value class
 	Edge     bool   `json:"-"` // a quarter of its scalars are edge values
 	Boundary bool   `json:"-"` // drawn from the boundary class
+	Giant    bool   `json:"-"` // drawn from the giant-page class (one page body beyond 1 MiB)
 }
 
 // TaskSpec is one instance of a C13 run.
@@ -171,6 +176,14 @@ func AddOp(rec interface{}) Op { return Op{K: "add", Rec: RecJSON(rec), val: rec
 func WriteOp() Op              { return Op{K: "write"} }
 func CloseOp() Op              { return Op{K: "close"} }
 
+// ReadShape is the shape whose reader reads the file of this history.
+func (w *WriterSpec) ReadShape() string {
+	if w.ReadAs != "" {
+		return w.ReadAs
+	}
+	return w.Shape
+}
+
 // HistoryString is the canonical compact form A^n W ... C of a history.
 func (w *WriterSpec) HistoryString() string {
 	var b strings.Builder
@@ -194,7 +207,11 @@ func (w *WriterSpec) HistoryString() string {
 		}
 	}
 	flush()
-	return fmt.Sprintf("%s|p%d|%s|%s", w.Shape, w.Page, w.Codec, strings.TrimSpace(b.String()))
+	sh := w.Shape
+	if w.ReadAs != "" {
+		sh += ">" + w.ReadAs
+	}
+	return fmt.Sprintf("%s|p%d|%s|%s", sh, w.Page, w.Codec, strings.TrimSpace(b.String()))
 }
 
 // Violation is a property violation found by a check.
